@@ -5,39 +5,7 @@ From Coq Require Import List Arith Bool Permutation Lia Relations Sorted.
 From Cobald Require Import model.Toposort.
 Import ListNotations.
 
-(* ---------- generic list facts ---------- *)
-Lemma mem_In : forall x l, mem x l = true <-> In x l.
-Proof.
-  unfold mem. intros x l. rewrite existsb_exists. split.
-  - intros [y [Hy E]]. apply Nat.eqb_eq in E. subst y. exact Hy.
-  - intros H. exists x. split; [exact H|apply Nat.eqb_refl].
-Qed.
-
-Lemma mem_nIn : forall x l, mem x l = false <-> ~ In x l.
-Proof.
-  intros x l. split; intros H.
-  - intros Hin. apply mem_In in Hin. congruence.
-  - destruct (mem x l) eqn:E; [|reflexivity]. apply mem_In in E. contradiction.
-Qed.
-
-Lemma NoDup_app_intro : forall {A} (a b : list A),
-  NoDup a -> NoDup b -> (forall x, In x a -> ~ In x b) -> NoDup (a ++ b).
-Proof.
-  induction a as [|x r IH]; intros b Ha Hb Hd; cbn [app]; [exact Hb|].
-  inversion Ha as [|? ? Hx Hr]; subst. constructor.
-  - intros Hin. apply in_app_or in Hin. destruct Hin as [Hin|Hin]; [contradiction|].
-    apply (Hd x); [left; reflexivity|exact Hin].
-  - apply IH; [exact Hr|exact Hb|]. intros y Hy. apply Hd. right. exact Hy.
-Qed.
-
-Lemma NoDup_filter' : forall {A} (f : A -> bool) l, NoDup l -> NoDup (filter f l).
-Proof.
-  induction l as [|x r IH]; intros H; cbn [filter]; [constructor|].
-  inversion H as [|? ? Hx Hr]; subst. destruct (f x).
-  - constructor; [|apply IH; exact Hr]. intros Hin. apply filter_In in Hin. tauto.
-  - apply IH; exact Hr.
-Qed.
-
+(* ---------- generic list facts (see also kit/SetKit.v) ---------- *)
 Lemma NoDup_keys_filter : forall {B} (f : name * B -> bool) (d : list (name * B)),
   NoDup (map fst d) -> NoDup (map fst (filter f d)).
 Proof.
@@ -59,38 +27,6 @@ Proof.
   - inversion E1; subst. exfalso. apply Hx. apply in_map_iff. exists (k, v2). split; [reflexivity|exact H2].
   - inversion E2; subst. exfalso. apply Hx. apply in_map_iff. exists (k, v1). split; [reflexivity|exact H1].
   - eapply IH; eassumption.
-Qed.
-
-(* a NoDup list is a permutation of a NoDup sublist followed by the rest *)
-Lemma partition_perm : forall (l o : list name),
-  NoDup l -> NoDup o -> incl o l ->
-  Permutation l (o ++ filter (fun k => negb (mem k o)) l).
-Proof.
-  intros l o Hl Ho Hincl. apply NoDup_Permutation.
-  - exact Hl.
-  - apply NoDup_app_intro; [exact Ho|apply NoDup_filter'; exact Hl|].
-    intros x Hx Hin. apply filter_In in Hin. destruct Hin as [_ Hn].
-    apply negb_true_iff in Hn. apply mem_nIn in Hn. contradiction.
-  - intros x. split; intros H.
-    + apply in_or_app. destruct (mem x o) eqn:E.
-      * left. apply mem_In. exact E.
-      * right. apply filter_In. split; [exact H|]. rewrite E. reflexivity.
-    + apply in_app_or in H. destruct H as [H|H]; [apply Hincl; exact H|].
-      apply filter_In in H. tauto.
-Qed.
-
-Lemma filter_length_le' : forall {A} (f : A -> bool) l, length (filter f l) <= length l.
-Proof.
-  induction l as [|y r IH]; cbn [filter length]; [lia|]. destruct (f y); cbn [length]; lia.
-Qed.
-
-Lemma filter_length_lt : forall {A} (f : A -> bool) l x,
-  In x l -> f x = false -> length (filter f l) < length l.
-Proof.
-  induction l as [|y r IH]; intros x Hin Hf; [destruct Hin|].
-  cbn [filter length]. destruct Hin as [->|Hin].
-  - rewrite Hf. pose proof (filter_length_le' f r). lia.
-  - specialize (IH x Hin Hf). destruct (f y); cbn [length]; lia.
 Qed.
 
 (* ---------- before_in / pos ---------- *)
